@@ -282,11 +282,11 @@ def migrate_stream(tier, seed):
     cli = os.path.join(repo_dir, "kessoku")
     ws = Workspace("s%d" % seed)
     rng = G.SplitMix64(seed * 7 + 123)
-    n = 36 if tier == "quick" else 300
-    recs = []
-    for k in range(n):
-        cfg = W.gen_cfg(rng, "faithful" if k % 3 != 2 else "any")
-        recs.append(process_cfg(ws, k, cfg, wire, cli))
+    n = 96 if tier == "quick" else 480
+    cfgs = [W.gen_cfg(rng, "faithful" if k % 3 != 2 else "any") for k in range(n)]
+    from concurrent.futures import ThreadPoolExecutor
+    with ThreadPoolExecutor(8) as ex:
+        recs = list(ex.map(lambda kc: process_cfg(ws, kc[0], kc[1], wire, cli), enumerate(cfgs)))
     def fails(r, root=0):
         keep = set(W.subtree(r["cfg"]["nodes"], root))
         return ["%sT%d" % (nd["name_style"], nd["id"]) for nd in r["cfg"]["nodes"] if nd["id"] in keep and nd["err"] and nd["kind"] in ("fn", "fnerr", "bind")][:2]
